@@ -29,10 +29,24 @@
   every match payload kind, DecodeMatchField, MatchField, Match, flow-removed, packet-in, multipart request,
   bundle-add (given the embedded Parse), the experimenter message (given Length ≤ len and a local body decoder), and
   `Parse` for every kind except flow-mod and multipart reply (`C10c_parse_local_covered2`).
-  Left open: flow-mod, multipart reply (actions, instructions, stats records), packet-out; Parse on experimenter frames
-  that carry a bundle-add (needs an induction over the nesting) .
+  Third round — NEW OVER-READS reachable through Parse on frames whose length EQUALS their Length field:
+    * flow-mod: `InstrActions.UnmarshalBinary` (instruction.go:208-209) trusts `instr.Length`; `DecodeAction(data[n:])` on
+      the EMPTY rest re-slices to the capacity (action.go:69 `data[:2]`, action.go:342 `data[:4]`): a whole action is
+      decoded from the bytes after the frame — `C10c_parse_flowmod_not_local_counterexample`;
+    * multipart reply / flow-stats record: the same — `C10c_parse_multipart_flowstats_not_local_counterexample`.
+  Final positive statement `C10c_parse_local`: Parse is local on every `GoodFrame` — every kind except flow-mod and
+  multipart reply; experimenter frames not cut before their Length field, TLV table replies with Length ≥ 32, bundle-adds
+  whose embedded message is again good (induction over the nesting).  Multipart replies of every type but flow are local
+  as well (`C10c_multipart_nonflow_local`).
+  Fourth round: capacity-dependent sites machine-checked (goto-table `data[5:8]`, write-metadata `data[4:24]`, and through
+  Parse `C10c_parse_flowmod_capacity_dependent_counterexample`); `GoodFrame2` / `C10c_parse_local2` (good frames widened to
+  non-flow multipart replies and to flow-mods under any condition that makes the flow-mod decoder local); building blocks
+  of that condition: `C10c_decodeaction_local_covered`, `C10c_action_loop_local` (reachable-offset invariant),
+  `C10c_instructions_local_partial`, `InstrActions_unmarshalP_loc_inv`.
+  Left open: assembling these into `FlowMod.unmarshal` / `FlowStats` locality under one decidable in-frame predicate
+  (DecodeInstr dispatch + the instruction loops), the remaining action kinds (set-field, Nicira), packet-out.
 -/
-import OFV.Lemmas.Local4
+import OFV.Lemmas.Local7
 namespace OFV.Props.C10c
 open OFV OFV.Go OFV.Model
 
@@ -296,5 +310,203 @@ example : (Slice.mk [4, 12, 0, 8, 0, 0, 0, 7, 0xde, 0xad] 8).WF ∧ 8 ≤ (Slice
     rw [e] at htb; cases htb; rfl
   subst this
   refine ⟨by unfold parseCovered2; decide, fun h => absurd h (by decide)⟩
+
+/-! ### third round -/
+
+/-- NEW, REACHABLE THROUGH PARSE with frame length = Length field = 64: a flow-mod whose only instruction (apply-actions)
+    claims 16 bytes while the frame ends after the instruction's 8-byte header.  `DecodeAction` is handed the empty rest and
+    re-slices it to the capacity: the delivered flow-mod contains an `ActionDecNwTtl` whose header (`00 18 00 08` versus
+    `00 18 00 09`) is the 8 bytes that FOLLOW the frame in the buffer.  What the recycled buffer holds behind the frame
+    DOES influence the delivered message. -/
+theorem C10c_parse_flowmod_not_local_counterexample :
+    fmCexS.WF ∧ fmCexT.WF ∧ fmCexS.Agree fmCexT ∧ 8 ≤ fmCexT.len ∧
+    parse (fmCexS.len + 1) fmCexS ≠ parse (fmCexT.len + 1) fmCexT := parse_flowmod_not_local_counterexample
+
+/-- the frame of the previous counterexample has exactly the length its header announces -/
+theorem C10c_flowmod_cex_is_whole_frame : fmCexT.u16In 2 4 = .ok 64 ∧ fmCexT.len = 64 :=
+  ⟨fmCex_agree.2.2.2.2.1, fmCex_agree.2.2.2.2.2⟩
+
+/-- NEW, REACHABLE THROUGH PARSE with frame length = Length field = 80: the same over-read inside the flow-stats record
+    of a multipart reply -/
+theorem C10c_parse_multipart_flowstats_not_local_counterexample :
+    mpCexS.WF ∧ mpCexT.WF ∧ mpCexS.Agree mpCexT ∧ 8 ≤ mpCexT.len ∧
+    parse (mpCexS.len + 1) mpCexS ≠ parse (mpCexT.len + 1) mpCexT := parse_multipart_flowstats_not_local_counterexample
+
+theorem C10c_multipart_cex_is_whole_frame : mpCexT.u16In 2 4 = .ok 80 ∧ mpCexT.len = 80 :=
+  ⟨mpCex_agree.2.2.2.2.1, mpCex_agree.2.2.2.2.2⟩
+
+/-- the unit-level defect behind both: `ActionDecNwTtl.UnmarshalBinary` (action.go:342) reads `data[:4]` unchecked -/
+theorem C10c_action_decnwttl_not_local_counterexample :
+    (Slice.mk [0, 24, 0, 8] 0).WF ∧ (Slice.mk [0, 24, 0, 9] 0).WF ∧ (Slice.mk [0, 24, 0, 8] 0).Agree (Slice.mk [0, 24, 0, 9] 0) ∧
+    ActionDecNwTtl.unmarshal ActionDecNwTtl.zero (Slice.mk [0, 24, 0, 8] 0) ≠
+      ActionDecNwTtl.unmarshal ActionDecNwTtl.zero (Slice.mk [0, 24, 0, 9] 0) := ActionDecNwTtl_not_local_counterexample
+
+/-- FINAL STATEMENT.  On every good frame — at least 8 bytes; any kind EXCEPT flow-mod and multipart reply (over-reads
+    above); an experimenter frame not cut before its Length field, a TLV table reply with Length ≥ 32 (body ≥ 16, otherwise
+    `C10c_parse_tlvtablereply_not_local_counterexample`), the message embedded in a bundle-add again a good frame, to
+    nesting depth `n` — what the stream's recycled buffer holds behind the frame cannot influence the message that
+    `openflow13.Parse` delivers; nor can the nesting bounds `d`, `d'` that Parse derives from the buffers' capacities. -/
+theorem C10c_parse_local (n : Nat) (s t : Slice) (hs : s.WF) (ht : t.WF) (h : s.Agree t) (hg : GoodFrame n t) (d d' : Nat) :
+    parse d s = parse d' t := parse_good_loc n ⟨hs, ht, h⟩ hg d d'
+
+/-- a good frame: an echo request followed by stale bytes -/
+example : GoodFrame 1 (Slice.mk [4, 2, 0, 8, 0, 0, 0, 7, 0xde, 0xad] 8) := by
+  unfold GoodFrame
+  refine ⟨by decide, ?_⟩
+  intro tb htb
+  have : tb = 2 := by
+    have e : (Slice.mk [4, 2, 0, 8, 0, 0, 0, 7, 0xde, 0xad] 8).byteAt 1 = .ok 2 := rfl
+    rw [e] at htb; cases htb; rfl
+  subst this
+  refine ⟨by unfold parseCovered2; decide, fun h => absurd h (by decide)⟩
+
+/-- multipart records other than flow-stats (aggregate, desc, table, port, queue stats; port / queue stats requests): local -/
+theorem C10c_stats_records_local (recv : V) (s t : Slice) (hs : s.WF) (ht : t.WF) (h : s.Agree t) :
+    AggregateStats.unmarshal recv s = AggregateStats.unmarshal recv t ∧ DescStats.unmarshal recv s = DescStats.unmarshal recv t ∧
+    TableStats.unmarshal recv s = TableStats.unmarshal recv t ∧ PortStats.unmarshal recv s = PortStats.unmarshal recv t ∧
+    QueueStats.unmarshal recv s = QueueStats.unmarshal recv t ∧
+    PortStatsRequest.unmarshal recv s = PortStatsRequest.unmarshal recv t ∧
+    QueueStatsRequest.unmarshal recv s = QueueStatsRequest.unmarshal recv t :=
+  have haw : Slice.AW s t := ⟨hs, ht, h⟩
+  ⟨AggregateStats_loc recv haw, DescStats_loc recv haw, TableStats_loc recv haw, PortStats_loc recv haw, QueueStats_loc recv haw,
+    PortStatsRequest_loc recv haw, QueueStatsRequest_loc recv haw⟩
+
+/-- a multipart reply of any type but flow, on a frame of at least 8 bytes: what the stream's recycled buffer holds behind
+    the frame cannot influence the decoded reply -/
+theorem C10c_multipart_nonflow_local (cl : MsgLenF) (recv : V) (s t : Slice) (hs : s.WF) (ht : t.WF) (h : s.Agree t)
+    (h8 : 8 ≤ t.len) (hty : ∀ mt, t.u16From 8 = .ok mt → mt.toNat ≠ Gen.openflow13.MultipartType_Flow) :
+    MultipartReply.unmarshalWith cl recv s = MultipartReply.unmarshalWith cl recv t :=
+  MultipartReply_unmarshalWith_loc_partial cl recv ⟨hs, ht, h⟩ h8 hty
+
+example : 8 ≤ (Slice.exact ([4, 19, 0, 16, 0, 0, 0, 7, 0, 3] ++ zeros 6)).len ∧
+    ∀ mt, (Slice.exact ([4, 19, 0, 16, 0, 0, 0, 7, 0, 3] ++ zeros 6)).u16From 8 = .ok mt → mt.toNat ≠ Gen.openflow13.MultipartType_Flow := by
+  refine ⟨by decide, ?_⟩
+  intro mt hmt
+  have e : (Slice.exact ([4, 19, 0, 16, 0, 0, 0, 7, 0, 3] ++ zeros 6)).u16From 8 = .ok 3 := rfl
+  rw [e] at hmt; cases hmt; decide
+
+/-- the actions whose decoders check `len(data)` before slicing (action header, output, group, set-mpls-ttl, set-nw-ttl,
+    set-queue, NX action header): local -/
+theorem C10c_actions_guarded_local (recv : V) (s t : Slice) (hs : s.WF) (ht : t.WF) (h : s.Agree t) :
+    ActionHeader.unmarshal recv s = ActionHeader.unmarshal recv t ∧ ActionOutput.unmarshal recv s = ActionOutput.unmarshal recv t ∧
+    ActionGroup.unmarshal recv s = ActionGroup.unmarshal recv t ∧ ActionMplsTtl.unmarshal recv s = ActionMplsTtl.unmarshal recv t ∧
+    ActionNwTtl.unmarshal recv s = ActionNwTtl.unmarshal recv t ∧ ActionSetqueue.unmarshal recv s = ActionSetqueue.unmarshal recv t ∧
+    NXActionHeader.unmarshal recv s = NXActionHeader.unmarshal recv t :=
+  have haw : Slice.AW s t := ⟨hs, ht, h⟩
+  ⟨ActionHeader_loc recv haw, ActionOutput_loc recv haw, ActionGroup_loc recv haw, ActionMplsTtl_loc recv haw,
+    ActionNwTtl_loc recv haw, ActionSetqueue_loc recv haw, NXActionHeader_loc recv haw⟩
+
+/-! ### fourth round -/
+
+/-- CAPACITY-dependent site: goto-table re-slices `data[5:8]` unchecked — the same 5 visible bytes panic when the buffer ends
+    there and decode when 3 more bytes of capacity follow -/
+theorem C10c_gototable_capacity_dependent_counterexample :
+    (Slice.mk [0, 1, 0, 8, 7] 5).WF ∧ (Slice.mk [0, 1, 0, 8, 7, 0, 0, 0] 5).WF ∧
+    (Slice.mk [0, 1, 0, 8, 7] 5).Agree (Slice.mk [0, 1, 0, 8, 7, 0, 0, 0] 5) ∧
+    InstrGotoTable.unmarshal InstrGotoTable.zero (Slice.mk [0, 1, 0, 8, 7] 5) = .panic ∧
+    InstrGotoTable.unmarshal InstrGotoTable.zero (Slice.mk [0, 1, 0, 8, 7, 0, 0, 0] 5) =
+      .ok (.obj "InstrGotoTable" [.obj "InstrHeader" [.num 1, .num 8], .num 7, .bytes []]) :=
+  InstrGotoTable_capacity_dependent_counterexample
+
+/-- CAPACITY-dependent site: write-metadata re-slices `data[4:8]`, `data[8:16]`, `data[16:24]` unchecked -/
+theorem C10c_writemetadata_capacity_dependent_counterexample :
+    (Slice.mk [0, 2, 0, 24, 0, 0, 0, 0] 8).WF ∧ (Slice.mk ([0, 2, 0, 24, 0, 0, 0, 0] ++ zeros 16) 8).WF ∧
+    (Slice.mk [0, 2, 0, 24, 0, 0, 0, 0] 8).Agree (Slice.mk ([0, 2, 0, 24, 0, 0, 0, 0] ++ zeros 16) 8) ∧
+    InstrWriteMetadata.unmarshal InstrWriteMetadata.zero (Slice.mk [0, 2, 0, 24, 0, 0, 0, 0] 8) = .panic ∧
+    InstrWriteMetadata.unmarshal InstrWriteMetadata.zero (Slice.mk ([0, 2, 0, 24, 0, 0, 0, 0] ++ zeros 16) 8) =
+      .ok (.obj "InstrWriteMetadata" [.obj "InstrHeader" [.num 2, .num 24], .bytes [], .num 0, .num 0]) :=
+  InstrWriteMetadata_capacity_dependent_counterexample
+
+/-- … and its metadata / mask are then the 16 bytes behind the slice (content over-read: metadata 1 versus 2) -/
+theorem C10c_writemetadata_not_local_counterexample :
+    (Slice.mk ([0, 2, 0, 24, 0, 0, 0, 0] ++ [0,0,0,0,0,0,0,1] ++ zeros 8) 8).Agree (Slice.mk ([0, 2, 0, 24, 0, 0, 0, 0] ++ [0,0,0,0,0,0,0,2] ++ zeros 8) 8) ∧
+    InstrWriteMetadata.unmarshal InstrWriteMetadata.zero (Slice.mk ([0, 2, 0, 24, 0, 0, 0, 0] ++ [0,0,0,0,0,0,0,1] ++ zeros 8) 8) =
+      .ok (.obj "InstrWriteMetadata" [.obj "InstrHeader" [.num 2, .num 24], .bytes [], .num 1, .num 0]) ∧
+    InstrWriteMetadata.unmarshal InstrWriteMetadata.zero (Slice.mk ([0, 2, 0, 24, 0, 0, 0, 0] ++ [0,0,0,0,0,0,0,2] ++ zeros 8) 8) =
+      .ok (.obj "InstrWriteMetadata" [.obj "InstrHeader" [.num 2, .num 24], .bytes [], .num 2, .num 0]) :=
+  InstrWriteMetadata_not_local_counterexample
+
+/-- through Parse, frame length = Length field = 61: a flow-mod ending in a 5-byte goto-table fragment is REJECTED when the
+    buffer ends with the frame and ACCEPTED when 3 more bytes of capacity follow: the outcome depends on the buffer alone -/
+theorem C10c_parse_flowmod_capacity_dependent_counterexample :
+    (fmGoto []).WF ∧ (fmGoto [0, 0, 0]).WF ∧ (fmGoto []).Agree (fmGoto [0, 0, 0]) ∧
+    parse 62 (fmGoto []) = .err ∧ (parse 62 (fmGoto [0, 0, 0])).isOk = true := parse_flowmod_capacity_dependent_counterexample
+
+/-- FINAL STATEMENT, widened: good frames now include multipart replies of every type but flow, and flow-mods satisfying
+    any condition `FM` under which the flow-mod decoder is local.  On such a frame, what the stream's recycled buffer holds
+    behind the frame (and how large it is) cannot influence the message that Parse delivers. -/
+theorem C10c_parse_local2 (FM : Slice → Prop)
+    (hFM : ∀ s t, Slice.AW s t → FM t → FlowMod.unmarshal flowModRecv s = FlowMod.unmarshal flowModRecv t)
+    (n : Nat) (s t : Slice) (hs : s.WF) (ht : t.WF) (h : s.Agree t) (hg : GoodFrame2 FM n t) (d d' : Nat) :
+    parse d s = parse d' t := parse_good2_loc FM hFM n ⟨hs, ht, h⟩ hg d d'
+
+/-- the hypotheses are satisfiable: with `FM := False` (no flow-mod allowed) a multipart reply of type table is good -/
+example : GoodFrame2 (fun _ => False) 1 (Slice.exact ([4, 19, 0, 16, 0, 0, 0, 7, 0, 3] ++ zeros 6)) := by
+  unfold GoodFrame2
+  refine ⟨by decide, ?_⟩
+  intro tb htb
+  have : tb = 19 := by
+    have e : (Slice.exact ([4, 19, 0, 16, 0, 0, 0, 7, 0, 3] ++ zeros 6)).byteAt 1 = .ok 19 := rfl
+    rw [e] at htb; cases htb; rfl
+  subst this
+  refine ⟨fun h => absurd h (by decide), fun _ mt hmt => ?_, fun h => absurd h (by decide)⟩
+  have e : (Slice.exact ([4, 19, 0, 16, 0, 0, 0, 7, 0, 3] ++ zeros 6)).u16From 8 = .ok 3 := rfl
+  rw [e] at hmt; cases hmt; decide
+
+/-- the actions that re-slice `data[:4]` unchecked (dec-nw-ttl & co., push, pop-vlan, pop-mpls) and the type switch of
+    DecodeAction (`data[:2]`) are local once the slice holds 4 (resp. 2) bytes -/
+theorem C10c_actions_unguarded_local_partial (recv : V) (s t : Slice) (hs : s.WF) (ht : t.WF) (h : s.Agree t) (h4 : 4 ≤ t.len) :
+    ActionDecNwTtl.unmarshal recv s = ActionDecNwTtl.unmarshal recv t ∧ ActionPush.unmarshal recv s = ActionPush.unmarshal recv t ∧
+    ActionPopVlan.unmarshal recv s = ActionPopVlan.unmarshal recv t ∧ ActionPopMpls.unmarshal recv s = ActionPopMpls.unmarshal recv t ∧
+    newActionFor s = newActionFor t :=
+  have haw : Slice.AW s t := ⟨hs, ht, h⟩
+  ⟨ActionDecNwTtl_loc_partial recv haw h4, ActionPush_loc_partial recv haw h4, ActionPopVlan_loc_partial recv haw h4,
+    ActionPopMpls_loc_partial recv haw h4, newActionFor_loc_partial haw (by omega)⟩
+
+example : 4 ≤ (Slice.exact [0, 24, 0, 8, 0, 0, 0, 0]).len := by decide
+
+/-- DecodeAction on at least 4 bytes, for the covered kinds (`ActionKindCovered`: header, output, set-queue, group,
+    set-mpls-ttl, set-nw-ttl, dec-nw-ttl & co., push, pop-vlan, pop-mpls, NX header, and the nil receiver): local -/
+theorem C10c_decodeaction_local_covered (s t : Slice) (hs : s.WF) (ht : t.WF) (h : s.Agree t) (h4 : 4 ≤ t.len)
+    (hk : ∀ a, newActionFor t = .ok a → ActionKindCovered a.kind) (d d' : Nat) :
+    DecodeAction (d + 1) s = DecodeAction (d' + 1) t := DecodeAction_loc_covered ⟨hs, ht, h⟩ h4 hk d d'
+
+/-- an output action of 16 bytes meets the hypotheses -/
+example : 4 ≤ (Slice.exact ([0, 0, 0, 16, 0, 0, 0, 1, 0xff, 0xff] ++ zeros 6)).len ∧
+    ∀ a, newActionFor (Slice.exact ([0, 0, 0, 16, 0, 0, 0, 1, 0xff, 0xff] ++ zeros 6)) = .ok a → ActionKindCovered a.kind := by
+  refine ⟨by decide, ?_⟩
+  intro a ha
+  have e : newActionFor (Slice.exact ([0, 0, 0, 16, 0, 0, 0, 1, 0xff, 0xff] ++ zeros 6)) = .ok ActionOutput.zero := rfl
+  rw [e] at ha; cases ha
+  exact Or.inr (Or.inl rfl)
+
+/-- the action loop of an instruction / bucket (`for n < limit { DecodeAction(data[n:]) }`): local when every offset the
+    loop reaches (an invariant `I` closed under "advance by the decoded action's length") leaves at least 4 bytes inside the
+    frame and starts an action of a covered kind — the exact in-frame condition the Go code fails to check -/
+theorem C10c_action_loop_local (s t : Slice) (hs : s.WF) (ht : t.WF) (h : s.Agree t) (limit n0 : Nat) (xs0 : List V)
+    (I : Nat → Prop) (h0 : I n0)
+    (hstep : ∀ n, I n → n < limit →
+      n + 4 ≤ t.len ∧ (∀ d a, t.fromR n = .ok d → newActionFor d = .ok a → ActionKindCovered a.kind) ∧
+      (∀ d act l act', t.fromR n = .ok d → DecodeAction (d.len + 1) d = .ok act → Action.lenM act = .ok (l, act') → l ≠ 0 →
+        I (n + l.toNat))) :
+    InstrAux.decodeActions s limit n0 xs0 = InstrAux.decodeActions t limit n0 xs0 :=
+  decodeActions_loc_inv ⟨hs, ht, h⟩ limit n0 xs0 I h0 hstep
+
+/-- trivially satisfiable: an empty action list (limit = start offset) -/
+example : ∀ n, (fun k => k = 8) n → n < 8 → n + 4 ≤ (Slice.exact (zeros 8)).len ∧ True := by
+  intro n hn hlt; subst hn; exact absurd hlt (by decide)
+
+/-- instructions: goto-table is local on 8 bytes, write-metadata on 24, meter and the instruction header always (header:
+    on 4 bytes); an actions instruction when its action loop stays inside the frame on covered kinds -/
+theorem C10c_instructions_local_partial (recv : V) (s t : Slice) (hs : s.WF) (ht : t.WF) (h : s.Agree t) :
+    (8 ≤ t.len → InstrGotoTable.unmarshal recv s = InstrGotoTable.unmarshal recv t) ∧
+    (24 ≤ t.len → InstrWriteMetadata.unmarshal recv s = InstrWriteMetadata.unmarshal recv t) ∧
+    InstrMeter.unmarshal recv s = InstrMeter.unmarshal recv t ∧
+    (4 ≤ t.len → InstrHeader.unmarshal4 recv s = InstrHeader.unmarshal4 recv t) :=
+  have haw : Slice.AW s t := ⟨hs, ht, h⟩
+  ⟨InstrGotoTable_loc_partial recv haw, InstrWriteMetadata_loc_partial recv haw, InstrMeter_loc recv haw,
+    InstrHeader_unmarshal4_loc_partial recv haw⟩
+
+example : 24 ≤ (Slice.exact ([0, 2, 0, 24] ++ zeros 20)).len := by decide
 
 end OFV.Props.C10c
